@@ -6,6 +6,7 @@ import re
 from ..common import Check, coq_eval, harness, load_findings
 from ..translate import gen_sites
 from . import c12_streams as S
+from . import c12_strings as ST
 from .c12_run import probe
 
 TRUSTED = [
@@ -320,6 +321,8 @@ def run():
     srcs += [(f, s, None) for f, s in S.byte_strings(rng, ck.n(300, 3000) * boost)]
     srcs += [(f, s, None) for f, s in S.extreme_numbers(rng, ck.n(500, 4000) * boost)]
     srcs += [(f, s, None) for f, s in S.mismatched_sets(rng, ck.n(250, 2000) * boost)]
+    srcs += [(f, s, None) for f, s in ST.escape_strings(rng, ck.n(300, 3000) * boost)]
+    srcs += [(f, s, None) for f, s in ST.slicing_family(rng, ck.n(40, 300) * boost)]
     for n in ([2000, 60000] if not ck.thorough else [2000, 60000, 1000000]):
         srcs += [(f, s, None) for f, s in S.long_tokens(n)]
     cases = []
